@@ -8,7 +8,7 @@ import core
 # (mode, number of runs) per tier; every job is one driver process writing several runs
 PLAN = {
     "quick": [("ff", 28), ("apps", 16), ("fault", 16), ("race", 6)],
-    "thorough": [("ff", 280), ("apps", 160), ("fault", 200), ("race", 60)],
+    "thorough": [("ff", 150), ("apps", 80), ("fault", 100), ("race", 30)],
 }
 RUNS_PER_JOB = {"quick": 2, "thorough": 5}
 
